@@ -14,8 +14,10 @@ PROP = dict(
                     "mpt_convert_number and mpt_convert_string for every number type, bases 0/10/16/8/2/36, on boundary magnitudes up to "
                     "2^128 with every sign and prefix form, malformed texts and PRNG-decorated numerals.  Every accepted result is compared "
                     "with the exact value of the source / of the characters reported as consumed; query and performing call must agree.  "
+                    "A C++ leg creates metatype holders (metatype::generic::create, metatype::create(value), metatype::value<T>, metatype::basic text) "
+                    "of every scalar type in PRNG order inside one process and judges each convert() to the 13 targets with the same oracle.  "
                     "Exploration, not proof: 32/64-bit and floating sources and numerals are sampled."),
-        level_note=("trusts the oracle code in harness/c07_value.c and c07_text.c, x87 long double arithmetic (64-bit mantissa holds every "
+        level_note=("trusts the oracle code in harness/c07_oracle.h (value and C++ legs) and c07_text.c, x87 long double arithmetic (64-bit mantissa holds every "
                     "source value exactly), glibc strtof/strtod/strtold as correctly rounded reference for decimal/hex fractions (plain decimal "
                     "integers below 2^64 are checked without glibc), gcc ASan+UBSan"),
         legs=[dict(name="c07_value", src=["c07_value.c"], libs=["mptcore"], batch=64,
@@ -48,7 +50,8 @@ PROP = dict(
               "boundary magnitude x sign rendered for the base, 72 malformed/limit texts (integer targets) or 176 floating texts, and 400 "
               "(quick) / 1500 (thorough) PRNG-decorated numerals, optionally with a range argument.  non-trivial = at least one accepted "
               "conversion whose target was compared with the oracle, or a refusal of a source the target cannot represent (value leg); at "
-              "least one compared result and one refusal (text leg); distinct = hash of (API/function, types, base, block, values/texts)"),
+              "least one compared result and one refusal (text leg); C++ leg: case = 20..60 holders (kind, source type, boundary/PRNG value) created and "
+              "converted one after the other, 32 cases per process, non-trivial with >= 10 compared results, >= 4 source types and >= 2 holder kinds; distinct = hash of (API/function, types, base, block, values/texts)"),
         exhaustive_note="value leg: every value of the 8-bit (c, b, y) and 16-bit (n, q) source types x 13 scalar targets + vector/unknown targets x 4 API paths x {destination, NULL}",
         assumptions=SAN_BASE + ["precision rule of DESIGN section 4: a floating target must hold the round-to-nearest image of the source (ties: either neighbour); finite source -> inf/NaN is a violation",
                                 "return 0 of the text functions means 'nothing converted' (empty / space-only text) and is neither success nor refusal; mpt_convert_string may report leading space as consumed without storing a value (counted, not asserted)",
